@@ -68,7 +68,8 @@ pub fn posthoc(pre: &World, post: &World, res: &mut EvalOut) -> PostHoc {
     let cur_actual = |u: usize| -> Option<String> {
         let uid = post.id(u);
         match res.disp.get(&uid) {
-            Some(Disp::ExecFailed) | Some(Disp::ExecAborted) | Some(Disp::UpstreamFailed) | Some(Disp::Aborted) => None,
+            // a job that was never started still has the output it produced last time
+            Some(Disp::ExecFailed) | Some(Disp::ExecAborted) => None,
             _ => res.cur.get(&uid).cloned(),
         }
     };
@@ -174,7 +175,21 @@ pub fn posthoc(pre: &World, post: &World, res: &mut EvalOut) -> PostHoc {
                 push(&mut v, "C09", format!("input-list-of-{}-job-changed", what), format!("{}: {:?} -> {:?}", ik, h_in.get(&ik), h_out.get(&ik)));
             }
             for k in dep_keys_in_range(post, &ids, j, h_in, &h_out) {
-                if h_in.get(k) != h_out.get(k) {
+                let upstream = &k[..k.len() - j.len() - 3];
+                if res.flipped.contains(j) && post.superseded(upstream, &ids) {
+                    // skipped (= recorded against the new name of its upstream) before the
+                    // upstream failure reached it
+                    continue;
+                }
+                // a job that was validly skipped before an upstream failure reached it has its
+                // per-dependency records refreshed to the (unaltered) current upstream output:
+                // unchanged is judged by the configured comparison here, textually elsewhere
+                let same = match (h_in.get(k), h_out.get(k)) {
+                    (Some(a), Some(b)) => a == b || !post.altered(&k[..k.len() - j.len() - 3], j, a, b),
+                    (None, None) => true,
+                    _ => false,
+                };
+                if !same {
                     push(&mut v, "C09", format!("dependency-record-of-{}-job-changed", what), format!("{}: {:?} -> {:?}", k, h_in.get(k), h_out.get(k)));
                 }
             }
@@ -343,7 +358,7 @@ pub fn posthoc(pre: &World, post: &World, res: &mut EvalOut) -> PostHoc {
     {
         let sup = |id: &str| post.superseded(id, &ids);
         let rerecorded = |id: &str| -> bool {
-            ids.contains_key(id) && (res.succeeded.contains(id) || ph.validly_skipped.contains(id) || res.disp.get(id) == Some(&Disp::Skipped))
+            ids.contains_key(id) && (res.succeeded.contains(id) || res.flipped.contains(id) || ph.validly_skipped.contains(id) || res.disp.get(id) == Some(&Disp::Skipped))
         };
         for (k, val) in h_in.iter() {
             if let Some((a, b)) = k.split_once("!!!") {
